@@ -205,60 +205,96 @@ Proof.
   unfold sentinel, zlen in *. rewrite app_length. simpl length. lia.
 Qed.
 
-(* ---------- raw (bypass) decoder ---------- *)
+(* ---------- RawDecode on a live MQ decoder, and arbitrary interleavings ---------- *)
+Lemma dec_raw_decode_ok : forall data d, dec_inv data d ->
+  exists d' b, dec_raw_decode d = Ok (d', b) /\ dec_inv data d' /\ d_cx d' = d_cx d.
+Proof.
+  intros data d ((Hbp & Hlen & Hz) & Ha & Hcx). unfold dec_raw_decode.
+  assert (Hfin : forall d1, dec_wf data d1 -> d_a d1 = d_a d -> d_cx d1 = d_cx d ->
+    exists d' b,
+      obind (Ok d1) (fun d1 =>
+        let ct := d_ct d1 - 1 in
+        Ok (mkDec (d_a d1) (d_c d1) ct (d_eos d1) (d_bp d1) (d_dlen d1) (d_cur d1) (d_rest d1) (d_cx d1),
+            if ct <? 0 then 0 else Z.land (Z.shiftr (d_c d1) ct) 1)) = Ok (d', b) /\
+      dec_inv data d' /\ d_cx d' = d_cx d).
+  { intros d1 (H1 & H2 & H3) Ea Ec. cbn [obind]. eexists. eexists. split; [reflexivity|].
+    unfold dec_inv, dec_wf. cbn [d_bp d_dlen d_cur d_rest d_a d_cx]. rewrite Ea, Ec. auto 10. }
+  destruct (Z.eqb_spec (d_ct d) 0) as [Hz0|Hnz]; [|apply Hfin; [exact (conj Hbp (conj Hlen Hz)) | reflexivity | reflexivity]].
+  destruct (Z.leb_spec (d_dlen d - 2) (d_bp d)) as [Hend|Hin].
+  - apply Hfin; [exact (conj Hbp (conj Hlen Hz)) | reflexivity | reflexivity].
+  - replace ((0 <=? d_bp d) && (d_bp d <? d_dlen d)) with true
+      by (symmetry; apply andb_true_iff; split; [apply Z.leb_le | apply Z.ltb_lt]; lia).
+    assert (Hl : (length (skipn (Z.to_nat (d_bp d)) (sentinel data)) >= 2)%nat).
+    { rewrite skipn_length. unfold sentinel. rewrite app_length. simpl length. unfold zlen in *. lia. }
+    rewrite Hz in Hl. destruct (d_rest d) as [|nx rest'] eqn:Er; [simpl in Hl; lia|].
+    assert (Hadv : forall c ct, dec_wf data (mkDec (d_a d) c ct (d_eos d) (d_bp d + 1) (d_dlen d) nx rest' (d_cx d))).
+    { intros c ct. unfold dec_wf. cbn [d_bp d_dlen d_cur d_rest]. split; [lia|]. split; [exact Hlen|].
+      replace (Z.to_nat (d_bp d + 1)) with (S (Z.to_nat (d_bp d))) by lia.
+      rewrite skipn_S_tl, Hz. reflexivity. }
+    cbv zeta.
+    destruct (d_c d =? 0xFF); [destruct (0x8F <? d_cur d)|]; apply Hfin; try reflexivity; try apply Hadv.
+    unfold dec_wf. cbn [d_bp d_dlen d_cur d_rest]. auto.
+Qed.
+
+Theorem mq_decoder_mixed_in_bounds : forall data ops d, dec_inv data d ->
+  Forall (fun o => fst o = 0 -> 0 <= snd o < zlen (d_cx d)) ops ->
+  exists d' bits, dec_mixed_list d ops = Ok (d', bits) /\ dec_inv data d' /\
+                  length bits = length ops /\ 0 <= d_bp d' <= zlen data.
+Proof.
+  intros data. induction ops as [|[k c] t IH]; intros d Hinv Hc.
+  - exists d, []. split; [reflexivity|]. split; [exact Hinv|]. split; [reflexivity|].
+    destruct Hinv as ((Hbp & _) & _). exact Hbp.
+  - inversion Hc as [|? ? Hc0 Ht]; subst. cbn [dec_mixed_list fst snd] in *.
+    assert (H1 : exists d1 b, (if k =? 0 then dec_decode d c else dec_raw_decode d) = Ok (d1, b) /\
+                              dec_inv data d1 /\ length (d_cx d1) = length (d_cx d)).
+    { destruct (Z.eqb_spec k 0) as [E|E].
+      - destruct (dec_decode_ok data d c Hinv (Hc0 E)) as (d1 & b & E1 & Hi & Hl & _). eauto.
+      - destruct (dec_raw_decode_ok data d Hinv) as (d1 & b & E1 & Hi & Ecx).
+        exists d1, b. rewrite Ecx. auto. }
+    destruct H1 as (d1 & b & E1 & Hinv1 & Hlen). rewrite E1. cbn [obind fst snd].
+    destruct (IH d1 Hinv1) as (d2 & bits & E2 & Hinv2 & Hl2 & Hbp2).
+    { unfold zlen in *. rewrite Hlen. exact Ht. }
+    rewrite E2. cbn [obind fst snd]. exists d2, (b :: bits). simpl. auto.
+Qed.
+
+(* ---------- raw (bypass) decoder (NewRawDecoder) ---------- *)
 Definition raw_wf (data : list Z) (r : rawdec) : Prop :=
-  0 <= r_bp r <= zlen data + 1 /\ r_dlen r = zlen data + 2 /\
-  r_rest r = skipn (Z.to_nat (r_bp r)) (sentinel data) /\
-  (r_bp r = zlen data + 1 -> r_c r = 255) /\ 0 <= r_ct r.
+  0 <= r_bp r <= zlen data /\ r_dlen r = zlen data + 2 /\
+  r_rest r = skipn (Z.to_nat (r_bp r)) (sentinel data).
 
 Lemma raw_decode_ok : forall data r, raw_wf data r ->
   exists r' b, raw_decode r = Ok (r', b) /\ raw_wf data r'.
 Proof.
-  intros data r (Hbp & Hlen & Hrest & Hc & Hct). unfold raw_decode.
+  intros data r (Hbp & Hlen & Hrest). unfold raw_decode.
   destruct (Z.eqb_spec (r_ct r) 0) as [Hz|Hnz].
   2:{ cbn [obind]. eexists. eexists. split; [reflexivity|].
-      unfold raw_wf. cbn [r_bp r_dlen r_rest r_c r_ct]. repeat split; auto; lia. }
+      unfold raw_wf. cbn [r_bp r_dlen r_rest]. auto. }
+  destruct (Z.leb_spec (r_dlen r - 2) (r_bp r)) as [Hend|Hin].
+  { cbn [obind]. eexists. eexists. split; [reflexivity|]. unfold raw_wf. cbn [r_bp r_dlen r_rest]. auto. }
   replace ((0 <=? r_bp r) && (r_bp r <? r_dlen r)) with true
     by (symmetry; apply andb_true_iff; split; [apply Z.leb_le | apply Z.ltb_lt]; lia).
   assert (Hl : (length (r_rest r) >= 1)%nat).
-  { rewrite Hrest, skipn_length. unfold sentinel. rewrite app_length. simpl length.
-    unfold zlen in Hbp. lia. }
+  { rewrite Hrest, skipn_length. unfold sentinel. rewrite app_length. simpl length. unfold zlen in *. lia. }
   destruct (r_rest r) as [|next rest'] eqn:Er; [simpl in Hl; lia|].
-  assert (Hlast : r_bp r = zlen data + 1 -> next = 255).
-  { intros E. rewrite E in Hrest. unfold sentinel, zlen in Hrest.
-    replace (Z.to_nat (Z.of_nat (length data) + 1)) with (S (length data)) in Hrest by lia.
-    rewrite skipn_S_tl, skipn_length_app in Hrest. simpl in Hrest. inversion Hrest. reflexivity. }
-  assert (Hfirst : r_bp r = zlen data -> next = 255).
-  { intros E. rewrite E in Hrest. unfold sentinel, zlen in Hrest. rewrite Nat2Z.id in Hrest.
-    rewrite skipn_length_app in Hrest. inversion Hrest. reflexivity. }
   assert (Hadv : rest' = skipn (Z.to_nat (r_bp r + 1)) (sentinel data)).
   { replace (Z.to_nat (r_bp r + 1)) with (S (Z.to_nat (r_bp r))) by lia.
     rewrite skipn_S_tl, <- Hrest. reflexivity. }
-  change 0xFF with 255. change 0x8F with 143.
-  destruct (Z.eqb_spec (r_c r) 255) as [Hc255|Hc255].
-  - destruct (Z.ltb_spec 143 next) as [Hn|Hn]; cbn [obind].
-    + eexists. eexists. split; [reflexivity|].
-      unfold raw_wf. cbn [r_bp r_dlen r_rest r_c r_ct]. repeat split; auto; lia.
-    + assert (r_bp r < zlen data).
-      { destruct (Z.eq_dec (r_bp r) (zlen data + 1)) as [E|E]; [specialize (Hlast E); lia|].
-        destruct (Z.eq_dec (r_bp r) (zlen data)) as [E'|E']; [specialize (Hfirst E'); lia|]. lia. }
-      eexists. eexists. split; [reflexivity|].
-      unfold raw_wf. cbn [r_bp r_dlen r_rest r_c r_ct]. repeat split; auto; lia.
-  - assert (r_bp r <= zlen data).
-    { destruct (Z.eq_dec (r_bp r) (zlen data + 1)) as [E|E]; [specialize (Hc E); lia | lia]. }
-    cbn [obind]. eexists. eexists. split; [reflexivity|].
-    unfold raw_wf. cbn [r_bp r_dlen r_rest r_c r_ct]. repeat split; auto; try lia.
+  destruct (r_c r =? 0xFF); [destruct (0x8F <? next)|]; cbn [obind];
+    eexists; eexists; (split; [reflexivity|]); unfold raw_wf; cbn [r_bp r_dlen r_rest];
+    repeat split; auto; lia.
 Qed.
 
+(* any data, any number of raw decodes: no read outside data ++ [FF; FF], and bp <= len(data) *)
 Theorem raw_decoder_in_bounds : forall data n,
-  exists r bits, raw_decode_n n (raw_new data) = Ok (r, bits) /\ length bits = n.
+  exists r bits, raw_decode_n n (raw_new data) = Ok (r, bits) /\ length bits = n /\
+                 0 <= r_bp r <= zlen data.
 Proof.
   intros data n.
   assert (H0 : raw_wf data (raw_new data)).
-  { unfold raw_wf, raw_new. cbn [r_bp r_dlen r_rest r_c r_ct]. unfold zlen. repeat split; try lia. }
+  { unfold raw_wf, raw_new. cbn [r_bp r_dlen r_rest]. unfold zlen. repeat split; try lia. }
   revert H0. generalize (raw_new data). induction n as [|k IH]; intros r Hr.
-  - exists r, []. auto.
+  - exists r, []. split; [reflexivity|]. split; [reflexivity|]. destruct Hr as (H & _). exact H.
   - cbn [raw_decode_n]. destruct (raw_decode_ok data r Hr) as (r1 & b & E & Hr1).
-    rewrite E. cbn [obind fst snd]. destruct (IH r1 Hr1) as (r2 & bits & E2 & Hl).
+    rewrite E. cbn [obind fst snd]. destruct (IH r1 Hr1) as (r2 & bits & E2 & Hl & Hb).
     rewrite E2. cbn [obind fst snd]. exists r2, (b :: bits). simpl. auto.
 Qed.
